@@ -259,6 +259,8 @@ def make_db2():
         g[cls.__name__] = cls
     db.bind('sqlite', ':memory:')
     db.generate_mapping(create_tables=True)
+    with db.set_perms_for(G, S, K):          # Database.to_json only shows what the current user may view
+        orm.perm('view', group='anybody')
     _state.update(db2=db, G=G, S=S, K=K)
     return db, G, S, K
 
@@ -392,4 +394,118 @@ def check_pickle_sets():
                 out.append(('pickle:set:EXC:' + type(e).__name__, {'kind': kind, 'preload': preload, 'error': str(e)[:200]})); continue
             if after != before or fresh != before:
                 out.append(('pickle:set:wrong-items', {'kind': kind, 'preload': preload, 'before': before, 'after': after, 'fresh_read_in_that_session': fresh}))
+    return out
+
+
+
+# ================================================================================================ Database.to_json
+INCLUDABLE = ('G.students', 'S.group', 'S.courses', 'K.students')
+
+def db_to_json_case(sc):
+    """Run Database.to_json on a pending-members scenario (its `probe` objects are the data, sc['include'] the included relationship
+    attributes, optional sc['schema'] in {'none', 'full', 'hash'}).  Returns a dict with the parsed JSON, the shadow's expectation and
+    the graph needed by the model (objects numbered g*, k*, s*), or {'error': ...}."""
+    from pony import orm
+    db, G, S, K = make_db2()
+    studs = [{'id': i + 1, 'name': 's%d' % (i + 1), 'group': g, 'courses': set(cs), 'new': False} for i, (g, cs) in enumerate(sc['students'])]
+    n_g, n_k = sc['groups'], sc['courses']
+    with orm.db_session:
+        gobj = [G(number=i + 1) for i in range(n_g)]
+        kobj = [K(name='k%d' % (i + 1)) for i in range(n_k)]
+        orm.flush()
+        for st in studs:
+            S(name=st['name'], group=None if st['group'] is None else gobj[st['group']], courses=[kobj[c] for c in sorted(st['courses'])]); orm.flush()
+    include_names = list(sc.get('include', []))
+    new_k = set()
+    with orm.db_session:
+        gobj = [G[i + 1] for i in range(n_g)]; kobj = [K[i + 1] for i in range(n_k)]; sobj = [S[i + 1] for i in range(len(studs))]
+        for kind, i in sc.get('preload', []): {'g': gobj, 'k': kobj, 's': sobj}[kind][i].to_dict(with_collections=True)
+        for m in sc.get('mods', []):
+            t = m[0]
+            if t == 'new_s':
+                studs.append({'id': len(studs) + 1, 'name': 'n%d' % (len(studs) + 1), 'group': m[1], 'courses': set(m[2]), 'new': True})
+                sobj.append(S(name=studs[-1]['name'], group=None if m[1] is None else gobj[m[1]], courses=[kobj[c] for c in m[2]]))
+            elif t == 'new_k':
+                n_k += 1; new_k.add(n_k - 1)
+                kobj.append(K(name='k%d' % n_k, students=[sobj[x] for x in m[1]]))
+                for x in m[1]: studs[x]['courses'].add(n_k - 1)
+            elif t == 'new_g': n_g += 1; gobj.append(G(number=n_g))
+            elif t == 'move_s': sobj[m[1]].group = None if m[2] is None else gobj[m[2]]; studs[m[1]]['group'] = m[2]
+            elif t == 'enroll': sobj[m[1]].courses.add(kobj[m[2]]); studs[m[1]]['courses'].add(m[2])
+        pick = lambda kind, i: {'g': gobj, 'k': kobj, 's': sobj}[kind][i]
+        include = [getattr({'G': G, 'S': S, 'K': K}[n.split('.')[0]], n.split('.')[1]) for n in include_names]
+        data = [pick(kind, i) for kind, i in sc['probe']]
+        mode = sc.get('schema', 'none')
+        try:
+            if mode == 'none': js = db.to_json(data, include=include, with_schema=False)
+            elif mode == 'full': js = db.to_json(data, include=include)
+            else:
+                h = json.loads(db.to_json([], with_schema=True))['schema_hash']
+                js = db.to_json(data, include=include, schema_hash=h)
+            parsed = json.loads(js)
+        except Exception as e:
+            orm.rollback(); return {'error': type(e).__name__ + ': ' + str(e)[:160]}
+        orm.rollback()
+    # shadow expectation (keys as JSON strings)
+    def succ(node):
+        kind, i = node
+        out = []
+        if kind == 'g' and 'G.students' in include_names: out += [('s', x) for x in range(len(studs)) if studs[x]['group'] == i]
+        if kind == 's':
+            if 'S.group' in include_names and studs[i]['group'] is not None: out.append(('g', studs[i]['group']))
+            if 'S.courses' in include_names: out += [('k', c) for c in sorted(studs[i]['courses'])]
+        if kind == 'k' and 'K.students' in include_names: out += [('s', x) for x in range(len(studs)) if i in studs[x]['courses']]
+        return out
+    roots = []
+    for kind, i in sc['probe']:
+        if (kind, i) not in roots: roots.append((kind, i))
+    seen, todo = list(roots), list(roots)
+    while todo:
+        o = todo.pop(0)
+        for x in succ(o):
+            if x not in seen: seen.append(x); todo.append(x)
+    def pk(node): return node[1] + 1
+    def odict(node):
+        kind, i = node
+        if kind == 'g':
+            d = {'number': i + 1}
+            if 'G.students' in include_names: d['students'] = sorted(studs[x]['id'] for x in range(len(studs)) if studs[x]['group'] == i)
+        elif kind == 'k':
+            d = {'id': i + 1, 'name': 'k%d' % (i + 1)}
+            if 'K.students' in include_names: d['students'] = sorted(studs[x]['id'] for x in range(len(studs)) if i in studs[x]['courses'])
+        else:
+            st = studs[i]
+            d = {'id': st['id'], 'name': st['name'], 'group': None if st['group'] is None else st['group'] + 1}
+            if 'S.courses' in include_names: d['courses'] = sorted(c + 1 for c in st['courses'])
+        return d
+    cls = {'g': 'G', 'k': 'K', 's': 'S'}
+    want = {'data': [{'class': cls[k], 'pk': pk((k, i))} for k, i in sc['probe']], 'objects': {}}
+    for node in seen: want['objects'].setdefault(cls[node[0]], {})[str(pk(node))] = odict(node)
+    universe = [('g', i) for i in range(n_g)] + [('k', i) for i in range(n_k)] + [('s', i) for i in range(len(studs))]
+    pending = [n for n in universe if (n[0] == 's' and studs[n[1]]['new']) or (n[0] == 'k' and n[1] in new_k)]
+    return {'parsed': parsed, 'want': want, 'universe': universe, 'succ': {universe.index(n): [universe.index(x) for x in succ(n)] for n in universe},
+            'roots': [universe.index(n) for n in roots], 'pending': [universe.index(n) for n in pending], 'mode': mode,
+            'present': [universe.index(n) for n in universe if str(pk(n)) in parsed.get('objects', {}).get(cls[n[0]], {})]}
+
+
+def check_db_to_json(sc):
+    out = []
+    r = db_to_json_case(sc)
+    if 'error' in r:
+        pending = any(m[0] in ('new_s', 'new_k') for m in sc.get('mods', []))
+        e = r['error']
+        if pending and ((e.startswith('AssertionError') and "'id': None" in e) or (e.startswith('TypeError') and 'NoneType' in e)):
+            # two keyless new objects meet under the key None (`assert not d`), or None is sorted against ints
+            return [('db.to_json:new-object-pk-null', {'error': e})]
+        return [('db.to_json:EXC', {'error': e})]
+    parsed, want = r['parsed'], r['want']
+    exp_sections = {'none': ['data', 'objects'], 'full': ['data', 'objects', 'schema', 'schema_hash'], 'hash': ['data', 'objects', 'schema_hash']}[r['mode']]
+    if sorted(parsed) != sorted(exp_sections): out.append(('db.to_json:wrong-sections', {'got': sorted(parsed), 'want': exp_sections}))
+    got = {'data': parsed.get('data'), 'objects': parsed.get('objects')}
+    if got != want:
+        flat = json.dumps(got)
+        if r['pending'] and ('null' in flat):
+            out.append(('db.to_json:new-object-pk-null', {'data': got['data'], 'object_keys': {e: sorted(v) for e, v in (got['objects'] or {}).items()}}))
+        else:
+            out.append(('db.to_json:wrong-values', {'got': got, 'want': want}))
     return out
